@@ -153,7 +153,7 @@ def search_generic(mismatches, outdir):
                                 "wrapped as one closed tff axiom); the model's rendering of the same formula is accepted"}
     if cands and cands[0]["request"].startswith("(tptp_formula"):
         # a rendering the model's reader accepts may still not be TPTP (a variable left unbound): ask tptp4X about the first few
-        for m in idx[:40]:
+        for m in (idx + [c for c in cands if c not in idx])[:600]:
             bad = tptp4x_formula(m["impl"], outdir, m["request"])
             if bad and not tptp4x_formula(m["model"], outdir, m["request"]):
                 return {"input_request": m["request"], "implementation_output": m["impl"], "model_output": m["model"],
